@@ -149,6 +149,8 @@ var Universe = []UType{
 	{"ut.MyInt64", "int", []string{"int64"}}, {"ut.MyBytes", "bytes", []string{"[]byte"}}, {"ut.MyF32", "float", []string{"float32"}}, {"ut.MyF64", "float", []string{"float64"}},
 	{"ut.Labels", "", []string{"[]string"}}, {"ut.MyMap", "", []string{"map[string]int"}}, {"ut.MyBool", "", []string{"bool"}}, {"*ut.Buf", "", []string{"fmt.Stringer", "ut.Buf"}},
 	{"ut.Tag", "", []string{"fmt.Stringer", "uint8"}},
+	// larger than 64 KiB: every field declared after it lies beyond the reach of a 16-bit offset
+	{"[9000]uint64", "", []string{"[9000]int64", "[8999]uint64"}},
 	// unnamed composite types built from structs
 	{"struct{ A int8; B string }", "", []string{"struct{ A int8; C string }", "ut.Pt"}}, {"[]struct{ X int }", "", []string{"[]struct{ Y int }", "[]ut.Pt"}},
 	{"*struct{ X int64 }", "", []string{"struct{ X int64 }", "*ut.Pt"}}, {"[2]ut.Pt", "", []string{"[2]altut.Pt", "[3]ut.Pt"}}, {"map[ut.Pt]string", "", []string{"map[altut.Pt]string"}},
